@@ -167,7 +167,9 @@ def sim_process(ctx):
         rec = loops(e)[0][0][0]
         g = py_guard(e)
         want = A(("op", "<=", pat("logging.ERROR"), ("a", rec, "level")))
-        ok = ok or (loops(e)[0][1] == recs and equivalent(g, want) is None)
+        # ... exactly for the reported records: the guard of the report (the sampled trigger) and the level test
+        reported = [py_guard(l) for lx, l in logs if lx is ex]
+        ok = ok or (loops(e)[0][1] == recs and bool(reported) and equivalent(g, f_and(reported[0], want)) is None)
     ctx.check(ok, "C34.sim-error-fails", errs[0][1].site if errs else fn.site, "handle_logs.on_error", found="; ".join(fstr(py_guard(e)) for _, e in errs) or "on_error never called", required="on_error() for every reported record with level >= ERROR (a failed assertion ends the simulation with a failure)")
     # production order
     fp = Fn(ctx.repo, SIM, "make_logging_process", "C34", enter=("log_process",))
